@@ -111,6 +111,22 @@ def _is_substitutable(newclass, cls):
     return issubclass(newclass, cls)
 
 
+def refuse_entity_declarations(root, parser_kwargs):
+    """When entities are not resolved (the default), a request has no use for
+    entity declarations. libxml2 still substitutes them in attribute values and
+    leaves unexpanded references elsewhere in the tree, so a document that
+    declares any is refused."""
+
+    if parser_kwargs.get('resolve_entities', False):
+        return
+
+    dtd = root.getroottree().docinfo.internalDTD
+    if dtd is not None:
+        for _ in dtd.iterentities():
+            raise Fault('Client.XMLSyntaxError',
+                                          "Entity declarations are not allowed")
+
+
 class SchemaValidationError(Fault):
     """Raised when the input stream could not be validated by the Xml Schema."""
 
@@ -476,6 +492,8 @@ class XmlDocument(SubXmlBase):
         except XMLSyntaxError as e:
             logger_invalid.error("%r in string %r", e, string)
             raise Fault('Client.XMLSyntaxError', str(e))
+
+        refuse_entity_declarations(ctx.in_document, self.parser_kwargs)
 
     def decompose_incoming_envelope(self, ctx, message):
         assert message in (self.REQUEST, self.RESPONSE)
